@@ -670,10 +670,13 @@ func (w *subWorld) opHouseWithdraw() {
 
 var subOdds = []string{"1.01", "1.1", "1.5", "2", "4.2", "10"}
 
-func (w *subWorld) opWager() {
+func (w *subWorld) opWager() { w.wagerOn(w.liveMarket(), false) }
+
+// wagerOn places a subaccount wager on market m; `tiny` asks for a bet so small that no liquidity is needed
+// (stake × (odds − 1) < 1, the zero-part bets of DESIGN.md section 9 item 2), fully paid by the subaccount.
+func (w *subWorld) wagerOn(m *subMarket, tiny bool) {
 	r := w.r
 	owner := w.pickUserOwner()
-	m := w.liveMarket()
 	a, has := w.subOf(owner)
 	avail := int64(0)
 	if has {
@@ -682,6 +685,10 @@ func (w *subWorld) opWager() {
 	}
 	amount := r.Pick([]int64{5, 7, 10, 11, 50, 100, 400, 2000})
 	sub := r.Pick([]int64{0, amount, amount / 2, avail, avail + 1, amount - 1, -5})
+	if tiny {
+		amount = r.Pick([]int64{6, 8, 9})
+		sub = amount
+	}
 	main := amount - sub
 	if r.Chance(4) {
 		main++
@@ -691,7 +698,11 @@ func (w *subWorld) opWager() {
 	innerCreator := w.acct(owner)
 	outerKey := 0
 	pre := 0
-	switch r.Intn(30) {
+	variant := r.Intn(30)
+	if tiny {
+		variant = 29
+	}
+	switch variant {
 	case 0:
 		outerKey = w.foreignTk
 		pre = 1
@@ -706,7 +717,7 @@ func (w *subWorld) opWager() {
 		}
 	}
 	inner := bettypes.MsgWager{Creator: innerCreator.String(), Props: &bettypes.WagerProps{UID: betUID, Amount: sdkmath.NewInt(amount),
-		Ticket: w.betTicket(m, r.Intn(len(m.odds)), subOdds[r.Intn(len(subOdds))], innerCreator, 0)}}
+		Ticket: w.betTicket(m, r.Intn(len(m.odds)), w.pickOdds(tiny), innerCreator, 0)}}
 	tk := w.e.Ticket(outerKey, map[string]interface{}{"msg": inner, "mainacc_deduct_amount": sdkmath.NewInt(main), "subacc_deduct_amount": sdkmath.NewInt(sub)})
 	msg := &subtypes.MsgWager{Creator: w.acct(owner).String(), Ticket: tk}
 	// read-only probes of what x/bet says about the inner message
@@ -758,6 +769,23 @@ func (w *subWorld) opWager() {
 	o := w.emit(false, cls, fmt.Sprintf("WG %d %d %d %d %s %d %s", owner, main, sub, pre, betAmount, b2i(wagerOk), charged))
 	w.outflowCheck(before, "WG", a)
 	w.monitors(o, "WG")
+}
+
+func (w *subWorld) pickOdds(tiny bool) string {
+	if tiny {
+		return "1.01"
+	}
+	return subOdds[w.r.Intn(len(subOdds))]
+}
+
+// opEmptyBookScenario (real histories): a fresh market nobody deposited into, a tiny subaccount wager on it, then
+// resolution and the end-blockers. The bet needs no liquidity, is accepted, and its settlement has to be paid out
+// of a pool that never received the stake.
+func (w *subWorld) opEmptyBookScenario() bool {
+	m := w.addMarket()
+	w.wagerOn(m, true)
+	w.resolve(m)
+	return w.endBlock()
 }
 
 // plainWager: a bet of user 9 through the bet module's own message (environment)
@@ -856,7 +884,11 @@ func runSub(seed uint64, n int, out *Out) {
 			case x < 73:
 				w.opHouseWithdraw()
 			case x < 83:
-				w.opWager()
+				if !injectedMode && r.Chance(6) {
+					halted = !w.opEmptyBookScenario()
+				} else {
+					w.opWager()
+				}
 			case x < 85:
 				w.opParams()
 			case x < 89:
